@@ -575,10 +575,14 @@ class Ctx:
 KERNEL_TB = [
     "Coq 8.16.1 kernel (Debian build), full .vo compilation through coq_makefile/make; vm_compute (bytecode VM) "
     "for reflective obligations and the model cross-check; no native_compute; no kernel check switched off",
-    "extraction: ExtrOcamlBasic + ExtrOcamlString only (Extract Inductive bool/option/unit/prod/list/sumbool/sumor, "
-    "ascii => char, string => char list; Extract Inlined Constant for fst/snd/andb/orb/negb as in those files); "
-    "no Extract Constant of our own; Z/positive/nat stay Coq datatypes; OCaml 4.13.1; 12-line generic driver; "
-    "a sample of every run's model answers is re-evaluated by vm_compute inside Coq and must agree",
+    "extraction: ExtrOcamlBasic + ExtrOcamlString only (the latter imports ExtrOcamlChar); their directives, no "
+    "other: Extract Inductive bool => bool, option => option, unit => unit, list => list, prod => ( * ), "
+    "sumbool => bool, sumor => option; Extract Inlined Constant andb => (&&), orb => (||); "
+    "Extract Inductive string => char list; Extract Inductive ascii => char and byte => char with "
+    "Extract Constant zero/one/shift/Ascii.compare and Extract Inlined Constant ascii_dec, Ascii.eqb, Byte.eqb, "
+    "Byte.byte_eq_dec => (=), Ascii.ascii_of_byte/byte_of_ascii => identity; no Extract Constant of our own; "
+    "Z/positive/N/Q/nat stay Coq datatypes; OCaml 4.13.1 (ocamlfind ocamlopt); 12-line generic driver "
+    "(vlib.DRIVER_ML); a sample of every run's model answers is re-evaluated by vm_compute inside Coq and must agree",
     "correspondence harness (Python under /venv/bin/python 3.12, PYTHONPATH=/repo, PYTHONHASHSEED=0): drives the real "
     "MontePy, canonicalises observations, decides which implementation function each model function is compared with",
 ]
